@@ -1,3 +1,4 @@
+-- properties: C04 C11
 /-
   C04 / C11 — the IRCAM container (stand-alone L1 model SfModel/Ircam.lean over SfModel/SmallSession.lean; helpers
   SfProofs/SmallSession.lean, SfProofs/Ircam.lean).  Property theorems only.
